@@ -231,6 +231,41 @@ def run(R):
     except gen.Untranslatable as e:
         R.signal('translation', str(e))
         KM = None
+    if KM:
+        # translator validation of Gen/KernelsMC.v: the IR against the converted kernels
+        dmc = R.defs(gen.gen_kernels_mc)
+        if dmc:
+            from scipy.special import gamma as Gamma, erf as sp_erf
+            NDc = Gamma(11.490) / (Gamma(5.745) * Gamma(5.745)) * 1.10452194071529090000
+            PI = math.pi
+
+            def st12(rng):
+                dcs = rng.random() < 0.25
+                g, d, g0, d0 = (0.0, 0.0, 0.0, 0.0) if dcs else (rng.uniform(-PI / 6, PI / 6), rng.uniform(-1.5, 1.5), rng.uniform(-PI / 6, PI / 6), rng.uniform(-1.5, 1.5))
+                return [g, d, rng.uniform(0, 1), rng.uniform(-1.5, 1.5), g0, rng.uniform(0.05, 0.5), d0, rng.uniform(0.05, 0.5),
+                        rng.uniform(0, 1), rng.uniform(0.05, 0.5), rng.uniform(-1.5, 1.5), rng.uniform(0.05, 0.5)]
+
+            def pr4(rng):
+                z = lambda: rng.random() < 0.3
+                a, b = z(), z()
+                return [0.0 if a else rng.uniform(-0.5, 0.5), 0.0 if a else rng.uniform(-1.5, 1.5), 0.0 if b else rng.uniform(-0.5, 0.5), 0.0 if b else rng.uniform(-1.5, 1.5)]
+            trf = lambda *a: 0.3 + 0.1 * math.sin(sum(a))
+            prf = lambda *a: 0.7 + 0.2 * math.cos(sum(a))
+            jpf = lambda *a: 0.5 + 0.1 * math.sin(a[0] - a[1])
+            specs_mc = [
+                (dmc['gaussian_transition_ratio'], lambda *a: [KM['gaussian_transition_ratio'](*a)], st12),
+                (dmc['uniform_prior_ratio'], lambda *a: [KM['uniform_prior_ratio'](*a)], lambda rng: [NDc] + pr4(rng)),
+                (dmc['gaussian_jump_prob'], lambda *a: [KM['gaussian_jump_prob'](*a)], lambda rng: [rng.uniform(-0.5, 0.5), rng.uniform(-1.5, 1.5), rng.uniform(0.05, 0.5), rng.uniform(0.05, 0.5), rng.uniform(0.5, 1.5)]),
+                (dmc['acceptance'], lambda *a: [KM['acceptance'](trf, prf, jpf, *a)],
+                 lambda rng: (lambda q: q[:4] + [q[4], rng.uniform(0.05, 0.5), q[5], rng.uniform(0.05, 0.5), rng.uniform(0, 1), rng.uniform(0.05, 0.5), rng.uniform(-1.5, 1.5), rng.uniform(0.05, 0.5),
+                                                 rng.uniform(-5, 1), rng.uniform(-5, 1), float(rng.choice([0, 1])), rng.uniform(-0.5, 0.5), rng.uniform(-1.5, 1.5), 0.2, 0.2, 0.97, rng.uniform(0.1, 0.9)])(
+                     [lambda p4: [p4[0], p4[1], rng.uniform(0, 1), rng.uniform(-1.5, 1.5), p4[2], p4[3]]][0](pr4(rng)))),
+            ]
+            mcfuns = dict(__import__('py2coq.ir', fromlist=['PYENV']).PYENV)
+            mcfuns.update({'erf': lambda t: float(sp_erf(t)), 'user:tr': lambda a: trf(*a), 'user:pr': lambda a: prf(*a), 'user:jp': lambda a: jpf(*a)})
+            before = R.cov.get('translator_validation_mismatches', 0)
+            validate_defs(R, specs_mc, R.n(150, 3000), tol=1e-9, funs=mcfuns)
+            R.cov['translator_validation_mismatches'] = before + R.cov.get('translator_validation_mismatches', 0)
     if KM and not bad:
         bad = mcmc_kernels(R, KM)
     if bad:
